@@ -570,3 +570,66 @@ Proof. vm_compute. repeat split; reflexivity. Qed.
 Print Assumptions C01_oe_metadata_mode_does_not_touch_supply.
 Print Assumptions C01_oe_minted_token_carries_configured_metadata.
 Print Assumptions C01_oe_other_calls_store_nothing.
+
+(* =====================================================================================
+   Migrations inside histories.  `minter_migrate` / `o_minter_migrate` (model/MinterMigrate.v)
+   are the minters' `migrate` entry points as functions on the sale-world state; they are
+   not handler operations, so `step` / `ostep` and the theorems above are untouched.  The
+   sale-world correspondence runs migrations inside its histories (SaleCorr.IMigrate /
+   SaleOeCorr.OIMigrate), from stored versions around 3.9.0 and the current version, by the
+   wasm admin and by strangers.
+   ===================================================================================== *)
+From LP Require Import MinterMigrate MinterMigrateProofs.
+
+(* an accepted migration of a vending minter changes no supply slot and keeps the invariant *)
+Theorem C01_migrate_keeps_supply : forall vr now name_ok stored admin s s',
+  minter_migrate vr now name_ok stored admin s = Ok s' ->
+  s_num_tokens s' = s_num_tokens s /\ s_mintable s' = s_mintable s /\ s_positions s' = s_positions s /\
+  s_minted s' = s_minted s /\ s_burned s' = s_burned s /\ s_airdrops s' = s_airdrops s.
+Proof. exact migrate_supply. Qed.
+
+Theorem C01_migrate_preserves_invariant : forall n vr now name_ok stored admin s s',
+  InvV n s -> minter_migrate vr now name_ok stored admin s = Ok s' -> InvV n s'.
+Proof. exact migrate_inv. Qed.
+
+(* histories interleaving calls and migrations (a refused migration, like a failed call,
+   leaves the state as it was) *)
+Theorem C01_history_with_migrates_spelled_out : forall vr s it items,
+  run_m vr s [] = s /\
+  run_m vr s (it :: items) =
+    run_m vr (match it with
+              | HCall c => apply_call vr s c
+              | HMigrate now name_ok stored admin =>
+                  match minter_migrate vr now name_ok stored admin s with Ok s' => s' | Err => s end
+              end) items.
+Proof. intros. split; [ reflexivity | destruct it; reflexivity ]. Qed.
+
+Theorem C01_every_reachable_state_with_migrates : forall n vr items s, InvV n s -> InvV n (run_m vr s items).
+Proof. exact run_m_inv. Qed.
+
+Theorem C01_zero_is_forever_with_migrates : forall vr items s, s_mintable s = 0 -> s_mintable (run_m vr s items) = 0.
+Proof. exact zero_is_forever_m. Qed.
+
+Theorem C01_history_without_migrates_is_a_special_case : forall vr cs s, run_m vr s (map HCall cs) = run vr s cs.
+Proof. exact run_m_calls. Qed.
+
+(* open edition: an accepted migration writes nothing of the sale state; a history with
+   migrations reaches the state of the same history without them *)
+Theorem C01_oe_migrate_changes_nothing : forall vr now name_ok stored admin s s',
+  o_minter_migrate vr now name_ok stored admin s = Ok s' -> s' = s.
+Proof. exact o_migrate_id. Qed.
+
+Theorem C01_oe_history_with_migrates : forall vr items s, orun_m vr s items = orun vr s (o_calls_of items).
+Proof. exact orun_m_erase. Qed.
+
+Theorem C01_oe_every_reachable_state_with_migrates : forall cap vr items s, InvO cap s -> InvO cap (orun_m vr s items).
+Proof. exact orun_m_inv. Qed.
+
+Print Assumptions C01_migrate_keeps_supply.
+Print Assumptions C01_migrate_preserves_invariant.
+Print Assumptions C01_every_reachable_state_with_migrates.
+Print Assumptions C01_zero_is_forever_with_migrates.
+Print Assumptions C01_history_without_migrates_is_a_special_case.
+Print Assumptions C01_oe_migrate_changes_nothing.
+Print Assumptions C01_oe_history_with_migrates.
+Print Assumptions C01_oe_every_reachable_state_with_migrates.
